@@ -66,7 +66,7 @@ mod verif_cmap_writer {
     fn format4_single_mapping_fffe() { single(0xFFFE) }
     //@harness fns=CmapSubtable::create_format_4,Format4SegmentComputer::compute,Format4Segment::should_combine tier=thorough timeout=1800 note="two adjacent pairs U+0041,42 and U+0051,52: depending on the glyph ids this yields delta segments, one glyph-array segment, or two glyph-array segments (the second idRangeOffset must skip the first one's ids)"
     #[kani::proof]
-    #[kani::unwind(7)]
+    #[kani::unwind(12)]
     fn format4_two_pairs() {
         let g: [u16; 4] = kani::any();
         kani::assume(g[0] != 0 && g[1] != 0 && g[2] != 0 && g[3] != 0);
